@@ -183,10 +183,11 @@ func (w *c07World) check(tag string, fullyWithdrawnTicksRemoved bool) {
 var c07Pairs = [][2]int64{{-200, -100}, {-100, 0}, {-100, 100}, {0, 100}, {100, 200}, {-200, 0}, {-200, 100}, {-200, 200}, {-100, 200}, {0, 200}}
 
 // quick tier: the first five ranges (below, touching, containing, starting at and above the current tick for each of
-// the three current ticks); thorough tier: all ten
+// the three current ticks); thorough tier: all ten for the first range, five for the second range of
+// withdrawal and swap histories
 func c07NPairs2() int {
 	if vTier() == 1 {
-		return 10
+		return 5
 	}
 	return 3
 }
